@@ -268,6 +268,44 @@ func diffHelpers(c *Ctx) {
 								mentionsAgainst = true
 							}
 						}
+						// keys and index computed by a helper from one operand: ks, idx := flatKeys(list)
+						derived := map[types.Object]types.Object{}
+						ast.Inspect(d.fd.Body, func(z ast.Node) bool {
+							a2, ok := z.(*ast.AssignStmt)
+							if !ok || len(a2.Rhs) != 1 {
+								return true
+							}
+							ce, isCall := a2.Rhs[0].(*ast.CallExpr)
+							if !isCall {
+								return true
+							}
+							var src types.Object
+							nsrc := 0
+							for _, a := range ce.Args {
+								if o := objOf(d.pkg, a); o != nil && (o == from || o == against) {
+									src = o
+									nsrc++
+								}
+							}
+							if nsrc != 1 {
+								return true
+							}
+							for _, l := range a2.Lhs {
+								if o := objOf(d.pkg, l); o != nil && o != added && o != removed {
+									derived[o] = src
+								}
+							}
+							return true
+						})
+						for o, src := range derived {
+							if src == against && strings.Contains(text, o.Name()+"[") {
+								mentionsAgainst = true
+							}
+						}
+						if over != nil && derived[over] == from {
+							// the appended element must then be the operand's element at the ranged position
+							over = from
+						}
 						if over == from && mentionsAgainst {
 							okDir = true
 						}
